@@ -89,7 +89,7 @@ class C14(Config):
     corr_targets = ["C14/Corr.vo", "C14/Wf.vo"]
     audit_dirs = ["Lib", "Gen", "C14"]
     header = ("From V.Lib Require Import Base MachInt.\n"
-              "From V.C14 Require Import Model Spec Corr Wf.\n"
+              "From V.C14 Require Import Model SignModel Spec Corr Wf.\n"
               "Local Open Scope Z_scope.")
     bin = "c14"
     release_too = False
